@@ -1,5 +1,6 @@
 import LlgoVerif.Util
 import LlgoVerif.Model.TypeStr
+import LlgoVerif.Model.TypeDesc
 /-! Line-protocol driver for C15 (stateful: the environment is sent first).
 
 Terms as in `Driver/C07.lean`.  Requests:
@@ -7,6 +8,9 @@ Terms as in `Driver/C07.lean`.  Requests:
 * `under decl | T`             → `ok`      (underlying type of a declaration)
 * `desc T | MSET`              → `<hex Str_> <hex String()> <kind> <named><extrastar><variadic><closure> <xcount> <hex emitted names, comma separated | ->`
                                  (`unsupported` for the `types.TypeString` fall-back of type arguments)
+* `hdr K`                      → `<emitHeader name> <readHeader name> <emit words> <read words>`   (K = abi.Kind number)
+* `dird K b`                   → `<directIfaceData 0/1> <needsBoxedReceiver 0/1>`
+* `shape T`                    → `<directIfaceType 0/1> <RuntimeName header> <hex StructType.PkgPath_ | ~ when the underlying type is no struct>`
 -/
 open LlgoVerif LlgoVerif.Util LlgoVerif.Types
 
@@ -104,6 +108,30 @@ def mkEnv (st : St) : Nat → Env
       underVariadic := fun d => match st.unders.lookup d with | some u => flagVariadic inner u | none => false
       underClosure := fun d => match st.unders.lookup d with | some u => flagClosure inner u | none => false }
 
+def kindOfNat : Nat → Option Kind
+  | 0 => some .invalid | 1 => some .bool | 2 => some .int | 3 => some .int8 | 4 => some .int16 | 5 => some .int32
+  | 6 => some .int64 | 7 => some .uint | 8 => some .uint8 | 9 => some .uint16 | 10 => some .uint32 | 11 => some .uint64
+  | 12 => some .uintptr | 13 => some .float32 | 14 => some .float64 | 15 => some .complex64 | 16 => some .complex128
+  | 17 => some .array | 18 => some .chan | 19 => some .func | 20 => some .interface | 21 => some .map | 22 => some .pointer
+  | 23 => some .slice | 24 => some .string | 25 => some .struct | 26 => some .unsafePointer
+  | _ => none
+
+/-- per-declaration facts of `Model/TypeDesc.lean`, computed with the model from the underlying types (fuel as `mkEnv`) -/
+def mkUd (st : St) : Nat → Nat → Bool
+  | 0 => fun _ => false
+  | fuel+1 => fun d => match st.unders.lookup d with | some u => directIfaceTypeC (mkUd st fuel) u | none => false
+
+def mkUh (st : St) : Nat → Nat → Header
+  | 0 => fun _ => .type
+  | fuel+1 => fun d => match st.unders.lookup d with | some u => runtimeNameC (mkUh st fuel) u | none => .type
+
+/-- `Underlying()` through aliases and declarations -/
+def underOf (st : St) : Nat → GoType → GoType
+  | 0, t => t
+  | fuel+1, .alias _ a => underOf st fuel a
+  | fuel+1, .named d p n s ts => match st.unders.lookup d with | some u => underOf st fuel u | none => .named d p n s ts
+  | _, t => t
+
 def bstr (b : Bool) : String := if b then "1" else "0"
 
 def msetOf : GoType → List MethodIn
@@ -136,6 +164,22 @@ def handle (st : St) (line : String) : St × String :=
         bstr (flagNamed t) ++ bstr (extraStar env t) ++ bstr (flagVariadic env t) ++ bstr (flagClosure env t) ++ " " ++
         toString (xcount m) ++ " " ++ (if names.isEmpty then "-" else ",".intercalate names))
     | _, _ => (st, "bad-op")
+  | ["hdr", k] =>
+    match k.toNat?.bind kindOfNat with
+    | some k => (st, (emitHeader k).name ++ " " ++ (readHeader k).name ++ " " ++ toString (emitHeader k).words ++ " " ++ toString (readHeader k).words)
+    | none => (st, "bad-op")
+  | ["dird", k, b] =>
+    match k.toNat?.bind kindOfNat with
+    | some k => (st, bstr (directIfaceData k (b == "1")) ++ " " ++ bstr (needsBoxedReceiver k (b == "1")))
+    | none => (st, "bad-op")
+  | "shape" :: toks =>
+    match parseWhole toks with
+    | some t =>
+      let sp := match underOf st 8 t with
+        | .struct fs => (match structPkgPath fs with | [] => "-" | p => hexOfStr p)
+        | _ => "~"
+      (st, bstr (directIfaceTypeC (mkUd st 8) t) ++ " " ++ (runtimeNameC (mkUh st 8) t).name ++ " " ++ sp)
+    | none => (st, "bad-op")
   | _ => (st, "bad-op")
 
 def main : IO Unit := lineLoopSt ({} : St) handle
